@@ -150,6 +150,54 @@ def run(ctx):
             ctx.count('tone')
             if float(np.max(np.abs(y - want))) > 1e-10:
                 ctx.fail('tone_maps_to_w_minus_N_over_4', inp, impl=float(np.max(np.abs(y - want))))
+    # long arrays (monitor only): the single-precision result must stay within single-precision rounding of the definition at every
+    # sample index.  Reference: the definition through a double-precision FFT; the mixing phase -pi/2*n is reduced exactly (i^-n).
+    def fft_oracle(x64):
+        N = x64.shape[0]
+        Xf = np.fft.fft(x64, axis=0)
+        w = np.zeros(N)
+        w[0] = 1
+        if N % 2 == 0:
+            w[N // 2] = 1
+        w[1:(N + 1) // 2] = 2
+        a = np.fft.ifft(Xf * w.reshape((N,) + (1,) * (x64.ndim - 1)), axis=0)
+        mix = np.array([1, -1j, -1, 1j])[np.arange(N) % 4].reshape((N,) + (1,) * (x64.ndim - 1))
+        return (a * mix)[::2]
+    for c in range(8 if ctx.tier == 'quick' else 60):
+        N = rng.choice([4096, 4097, 10000, 65536, 100001, 300000])
+        dt = rng.choice([np.float32, np.float32, np.float32, np.float64, np.float16])
+        two_d = rng.random() < 0.4
+        shape = [N, 2] if two_d else [N]
+        axis = 0
+        if two_d and rng.random() < 0.5:
+            shape, axis = [2, N], 1
+        x = nprng.standard_normal(shape).astype(dt)
+        inp = dict(shape=shape, axis=axis, dtype=np.dtype(dt).name, kind='long')
+        ctx.seen(inp, nontrivial=True); ctx.count('long'); ctx.count('dtype:' + np.dtype(dt).name)
+        try:
+            y = real_to_complex(x, axis=axis)
+        except Exception as e:
+            ctx.fail('raised_on_real_input', inp, impl=repr(e))
+            continue
+        want_dt = np.complex64 if dt is np.float32 else np.complex128
+        if y.dtype != want_dt or y.shape[axis] != (N + 1) // 2:
+            ctx.fail('dtype_or_shape', inp, impl=[str(y.dtype), list(y.shape)])
+            continue
+        xm = np.moveaxis(x.astype(np.float64), axis, 0)
+        ym = np.moveaxis(y, axis, 0)
+        mx = float(np.max(np.abs(xm))) + 1e-300
+        single = dt in (np.float32, np.float16)
+        tol = (1e-5 if single else 1e-12 * np.log2(N)) * mx
+        e = float(np.max(np.abs(ym.astype(np.complex128) - fft_oracle(xm))))
+        ctx.ratio(e, tol)
+        if e > tol:
+            ctx.fail('analytic_baseband_definition', inp, impl=e, model=tol)
+            continue
+        sign = ((-1.0) ** np.arange(ym.shape[0])).reshape((-1,) + (1,) * (ym.ndim - 1))
+        e = float(np.max(np.abs(sign * ym.real - xm[::2])))
+        if e > tol:
+            ctx.fail('real_part_is_input', inp, impl=e, model=tol)
+
     # complex input refused
     for dt in (np.complex64, np.complex128):
         try:
